@@ -297,3 +297,20 @@ Proof.
   { destruct r as [|[c j|c j|j|j|j|k j] r']; try reflexivity. destruct H. }
   exact G.
 Qed.
+
+(* the walk that also records rendered text agrees with the walk on elements *)
+Lemma elems_of_tagged (l : list id) : map snd (filter fst (map (pair true) l)) = l.
+Proof. induction l as [|x l IH]; cbn; [reflexivity|now rewrite IH]. Qed.
+Lemma evaluate_t_elements : forall fuel l, map snd (filter fst (evaluate_t fuel l)) = evaluate fuel l.
+Proof.
+  induction fuel as [|f IH]; intro l; [reflexivity|]. destruct l as [|n r]; [reflexivity|].
+  destruct n as [c i | c i | i | i | i | k i]; cbn [evaluate_t evaluate].
+  - destruct (chain c i r) as [out skip]. rewrite filter_app, map_app, elems_of_tagged, IH. reflexivity.
+  - apply IH.
+  - apply IH.
+  - cbn. now rewrite IH.
+  - cbn. apply IH.
+  - destruct k as [|k].
+    + destruct (for_else r 1) as [out skip]. rewrite filter_app, map_app, elems_of_tagged, IH. reflexivity.
+    + rewrite filter_app, map_app, elems_of_tagged, IH. reflexivity.
+Qed.
